@@ -58,6 +58,14 @@ def run(tier, replay):
         if rc != 0 or not os.path.exists(oj):
             raise vlib.Inconclusive("harness failed\n" + out[-2500:])
         res = json.load(open(oj))
+        # sequences of commands in one session (map + a follow whose reader comes back, ...)
+        so = os.path.join(wd, "seq.json")
+        rc, out = vlib.go_test(wd, "./internal/server/handlers", OV, "TestC10Sequences", env={"VERIF_OUT": so}, timeout=600)
+        if rc != 0 and vlib.died_in_dtail(out) >= 0:
+            i = vlib.died_in_dtail(out)
+            V.violation("the server process died during a sequence of commands in one session: " + out[i:i + 100].splitlines()[0], {"output": out[i:i + 1800]})
+        elif rc != 0 or not os.path.exists(so):
+            raise vlib.Inconclusive("sequence harness failed\n" + out[-2500:])
         notrun = 0
         for c, rr in zip(cases, res["results"]):
             if rr["outcome"] == "notrun":
